@@ -17,6 +17,9 @@ import shutil
 import sys
 import time as _time
 import weakref
+import atexit as _atexit
+import signal as _signal
+import warnings as _warnings
 
 from . import proc
 from .steps import SimInterrupt, Divergent, Inconclusive
@@ -246,9 +249,29 @@ class SimFS:
         self.open_files.add(sf)
         return sf
 
+    def syscall(self, kind, real_fn, path, *a, **kw):
+        """os.remove / os.unlink / os.mkdir / os.rmdir seen by the simulated disk: logged, failable, and
+        without effect once the process has been killed."""
+        rel = self._rel(path) if isinstance(path, (str, bytes, os.PathLike)) else None
+        if rel is None:
+            return real_fn(path, *a, **kw)
+        if self.killed:
+            return None
+        self._event(kind, rel, 0)
+        flt = self._fault(kind, rel, "w")
+        if flt is not None:
+            raise OSError(ERRNOS[flt["errno"]], os.strerror(ERRNOS[flt["errno"]]), os.fspath(path))
+        return real_fn(path, *a, **kw)
+
     def rename(self, real_fn, src, dst, *a, **kw):
         """os.rename / os.replace seen by the simulated disk (atomic replace of a finished temp file)."""
         rs, rd = self._rel(src), self._rel(dst)
+        if (rs is not None or rd is not None):
+            if self.killed:
+                return None
+            flt = self._fault("rename", rd if rd is not None else rs, "w")
+            if flt is not None:
+                raise OSError(ERRNOS[flt["errno"]], os.strerror(ERRNOS[flt["errno"]]), os.fspath(src))
         res = real_fn(src, dst, *a, **kw)
         if rs is not None or rd is not None:
             self._event("rename", rs, 0)
@@ -458,6 +481,14 @@ class World:
         self.fault_counts = {}
         self.probes = {}
         self.n_ops = 0
+        # interpreter-wide state a real process starts with (restored at every simulated process start)
+        import decimal as _decimal
+        self._proc0 = {"reclimit": sys.getrecursionlimit(), "environ": dict(os.environ),
+                       "decimal": _decimal.getcontext().copy(), "warnings": list(_warnings.filters),
+                       "int_digits": sys.get_int_max_str_digits(), "gc": gc.isenabled(),
+                       "path": list(sys.path)}
+        self.atexit_stack = []      # callbacks the simulated process registered with atexit
+        self.sig_handlers = {}      # signal handlers the simulated process installed
         self.restart(None)
 
     # -- bookkeeping
@@ -519,13 +550,101 @@ class World:
     def restart(self, entropy):
         """Process boundary: only the disk survives."""
         if hasattr(self, "fs"):
+            if self.atexit_stack:
+                # the long-lived session process ends: its exit handlers run first (inside the simulated world)
+                self.run_op(lambda: None, {"process_ends": True})
             gc.collect()
             self.fs.end_op(process_ends=True)
+        self._reset_process_state()
         proc.restart()
         if entropy is not None:
             _random.seed(entropy)
             self.fired("prng-entropy")
         self.n_restarts = getattr(self, "n_restarts", -1) + 1
+
+    def _reset_process_state(self):
+        """What a brand-new interpreter has, whatever the previous simulated process did to this one."""
+        import decimal as _decimal
+        p0 = self._proc0
+        self.atexit_stack = []
+        self.sig_handlers = {}
+        if sys.getrecursionlimit() != p0["reclimit"]:
+            self.probe("process-state-reset:recursionlimit")
+            sys.setrecursionlimit(p0["reclimit"])
+        if os.getcwd() != self.root:
+            self.probe("process-state-reset:cwd")
+            os.chdir(self.root)
+        if dict(os.environ) != p0["environ"]:
+            self.probe("process-state-reset:environ")
+            for k in list(os.environ):
+                if k not in p0["environ"]:
+                    del os.environ[k]
+            for k, v in p0["environ"].items():
+                if os.environ.get(k) != v:
+                    os.environ[k] = v
+        _decimal.setcontext(p0["decimal"].copy())
+        if list(_warnings.filters) != p0["warnings"]:
+            self.probe("process-state-reset:warnings")
+            _warnings.filters[:] = p0["warnings"]
+            try:
+                _warnings._filters_mutated()
+            except AttributeError:
+                pass
+        if sys.get_int_max_str_digits() != p0["int_digits"]:
+            self.probe("process-state-reset:int_max_str_digits")
+            sys.set_int_max_str_digits(p0["int_digits"])
+        if gc.isenabled() != p0["gc"]:
+            self.probe("process-state-reset:gc")
+            (gc.enable if p0["gc"] else gc.disable)()
+        if sys.path != p0["path"]:
+            self.probe("process-state-reset:sys.path")
+            sys.path[:] = p0["path"]
+
+    # -- seams for process-level services the code under test may start using
+    def _atexit_register(self, func, *a, **kw):
+        self.atexit_stack.append((func, a, kw))
+        return func
+
+    def _atexit_unregister(self, func):
+        self.atexit_stack = [e for e in self.atexit_stack if e[0] != func]
+
+    def _signal_signal(self, signum, handler):
+        old = self.sig_handlers.get(signum, _signal.default_int_handler if signum == _signal.SIGINT else _signal.SIG_DFL)
+        self.sig_handlers[signum] = handler
+        self.probe("signal-handler-installed")
+        return old
+
+    def _signal_getsignal(self, signum):
+        return self.sig_handlers.get(signum, _signal.default_int_handler if signum == _signal.SIGINT else _signal.SIG_DFL)
+
+    def _deliver_sigint(self, frame):
+        """Ctrl-C reaches the simulated process: True if the process handled it itself and goes on."""
+        hd = self.sig_handlers.get(_signal.SIGINT)
+        if hd is None or hd is _signal.default_int_handler or hd == _signal.SIG_DFL:
+            return False
+        self.fired("sigint-custom-handler")
+        if hd == _signal.SIG_IGN:
+            return True
+        hd(_signal.SIGINT, frame)      # may raise (then that is what the interrupted code sees)
+        return True
+
+    def _run_atexit(self, stderr):
+        """Interpreter shutdown: registered exit handlers, last registered first; errors are printed, not raised."""
+        n = 0
+        while self.atexit_stack:
+            func, a, kw = self.atexit_stack.pop()
+            n += 1
+            try:
+                func(*a, **kw)
+            except SimInterrupt:
+                raise
+            except BaseException as e:  # noqa
+                try:
+                    stderr.write("Exception ignored in atexit callback: %r\n" % (e,))
+                except Exception:
+                    pass
+        if n:
+            self.fired("atexit-handlers-run", n)
 
     # -- the operation wrapper
     def run_op(self, thunk, cfg=None):
@@ -582,6 +701,14 @@ class World:
 
         so, se = Sink(), Sink()
         old = (sys.stdout, sys.stderr, sys.argv, builtins.open, io.open, os.rename, os.replace)
+        old_proc = (_atexit.register, _atexit.unregister, _signal.signal, _signal.getsignal,
+                    os.remove, os.unlink, os.mkdir, os.rmdir)
+        _atexit.register, _atexit.unregister = self._atexit_register, self._atexit_unregister
+        _signal.signal, _signal.getsignal = self._signal_signal, self._signal_getsignal
+        os.remove = lambda p_, *a, **kw: fs.syscall("remove", old_proc[4], p_, *a, **kw)
+        os.unlink = lambda p_, *a, **kw: fs.syscall("remove", old_proc[5], p_, *a, **kw)
+        os.mkdir = lambda p_, *a, **kw: fs.syscall("mkdir", old_proc[6], p_, *a, **kw)
+        os.rmdir = lambda p_, *a, **kw: fs.syscall("rmdir", old_proc[7], p_, *a, **kw)
         sys.stdout, sys.stderr = so, se
         if cfg.get("argv") is not None:
             sys.argv = list(cfg["argv"])
@@ -619,15 +746,19 @@ class World:
                sweep_cap=cfg.get("sweep_cap") or self.DEFAULT_SWEEP_CAP,
                step_cap=cfg.get("step_cap") or self.DEFAULT_STEP_CAP, interrupt_exc=inj)
         if kill:
-            # the clock raises; the disk must know before any finaliser (`with`) runs
+            # the clock raises; the disk must know before any finaliser (`with`) runs, and no handler,
+            # finally block or exit hook of the dead process may execute
             keep = float(kill.get("keep", 0.0))
 
             def _killed():
                 fs.killed = True
                 fs.kill_keep = keep
+                sc.dead = True
             sc.on_interrupt = _killed
         else:
             sc.on_interrupt = None
+            if intr and inj is None:
+                sc.deliver = self._deliver_sigint
         try:
             try:
                 out["value"] = call(int(cfg.get("depth") or 0))
@@ -655,6 +786,26 @@ class World:
                 e.__traceback__ = None
                 del e
         finally:
+            if self.atexit_stack and (fs.killed or sc.dead):
+                self.atexit_stack = []          # a killed process runs no exit handlers
+            if self.atexit_stack and cfg.get("process_ends"):
+                try:
+                    self._run_atexit(se)
+                except BaseException as e:  # noqa: budget exhausted / interrupted inside an exit handler
+                    out["atexit_aborted"] = type(e).__name__
+                    self.atexit_stack = []
+            if sc.interrupt_site is not None and inj is None and out["status"] in ("ok", "exit"):
+                # the code caught the Ctrl-C itself (handler, `except KeyboardInterrupt`) and ended in its
+                # own way: still an invocation the user aborted - no claim is made about what it left behind
+                out["swallowed"] = out["status"]
+                out["status"] = "interrupt"
+                out["site"] = sc.interrupt_site
+                self.probe("ctrl-c-handled-by-the-code-itself")
+            elif sc.interrupt_site is not None and inj is None and out["status"] == "exc":
+                # ... or turned it into an exception of its own: a failed invocation, like an injected MemoryError
+                out["injected"] = "KeyboardInterrupt(converted)"
+                out.setdefault("site", sc.interrupt_site)
+                self.probe("ctrl-c-converted-by-the-code-itself")
             out["steps"] = sc.disarm()
             out["sweeps"] = sc.total_sweeps
             out["max_sweeps"] = sc.max_sweeps
@@ -666,6 +817,8 @@ class World:
             builtins.open = old[3]
             io.open = old[4]
             os.rename, os.replace = old[5], old[6]
+            (_atexit.register, _atexit.unregister, _signal.signal, _signal.getsignal,
+             os.remove, os.unlink, os.mkdir, os.rmdir) = old_proc
             io.text_encoding, _locale.getpreferredencoding = old_loc[0], old_loc[1]
             if old_loc[2] is not None:
                 _locale.getencoding = old_loc[2]
